@@ -78,6 +78,9 @@ func chunkingFeatures(a gen.Array, ck gen.Chunking) map[string]bool {
 			f["multi-data-event"] = true
 		}
 		for _, s := range c.Splits {
+			if s == 0 {
+				f["empty-data-event"] = true
+			}
 			off += s
 			if eb > 1 && off%eb != 0 {
 				f["split-in-element"] = true
